@@ -6,7 +6,7 @@ globals().update(
         pid="C19",
         props=["JaqalProofs/Props/C19.lean"],
         targets=["JaqalProofs.Props.C19"],
-        diffs=[("harness.agents.time_diff", 1500, 20000), ("harness.agents.c19_edge", 3000, 10000)],
+        diffs=[("harness.agents.time_diff", 1500, 20000), ("harness.agents.c19_edge", 3000, 10000), ("harness.agents.c19_scale", 600, 1500)],
         trusted=[
             STD_TRUST,
             "hand-written model JaqalModel/Model/UnitTiming.lean of BlockNormalizer / UnrollIterator / zip_longest chunking; specification JaqalModel/Spec/Schedule.lean (gate = 1 step, sequential = sum, parallel = max with a common start, loop = n back-to-back copies of its body)",
